@@ -150,7 +150,9 @@ def canon(o):
         return (f"dn {li.long_invoke_id} {b01(li.prioritized)} {b01(li.confirmed)} {b01(li.break_on_error)} "
                 f"{b01(li.self_descriptive)} {dts} {hx(o.body)}")
     if isinstance(o, xdlms.ExceptionResponse):
-        return f"exc {int(o.state_error)} {int(o.service_error)} {o.invocation_counter_data or 0}"
+        # the invocation-counter-error choice carries a number: "no counter" there is not the value 0 that was encoded
+        ic = o.invocation_counter_data if int(o.service_error) == 6 else (o.invocation_counter_data or 0)
+        return f"exc {int(o.state_error)} {int(o.service_error)} {ic}"
     if isinstance(o, xdlms.ConfirmedServiceError):
         t = [k for k, v in ERR_TYPES.items() if v[0] == type(o.error).__name__]
         return f"cse {t[0] if t else '?'} {int(o.error)}"
